@@ -1,3 +1,951 @@
 import InfernoVerif.Model.Lifecycle
+/-!
+Helper lemmas for C15 (`Props/C15.lean`): handle consistency `WFh`, pool consistency `PoolOK`, the
+structural invariants `WFc` (before) / `WF` (after reference counting), their preservation by every
+operation of `Model/Lifecycle.lean`, and the count = specification-count invariant.  Core Lean only.
+-/
 namespace InfernoVerif.Lifecycle
+
+/-! ### Handle consistency (the layer's hook list vs the monitors' handle fields) -/
+
+structure WFh (s : State) : Prop where
+  post_ok : ∀ e ∈ s.post, e.1 < s.nextId ∧ (s.mons e.2).alive = true ∧ (s.mons e.2).handle = some e.1
+  post_nodup : s.post.Pairwise (fun a b => a.1 ≠ b.1)
+  handle_mem : ∀ mid hid, (s.mons mid).handle = some hid → (hid, mid) ∈ s.post
+  alive_lt : ∀ mid, (s.mons mid).alive = true → mid < s.nMons
+
+theorem WFh.dead_no_handle {s : State} (w : WFh s) {mid : Nat} (h : (s.mons mid).alive = false) :
+    (s.mons mid).handle = none := by
+  cases hh : (s.mons mid).handle with
+  | none => rfl
+  | some hid =>
+    have := (w.post_ok _ (w.handle_mem mid hid hh)).2.1
+    simp only at this; rw [h] at this; cases this
+
+theorem pairwise_fst_inj {l : List (Nat × Nat)} (h : l.Pairwise (fun a b => a.1 ≠ b.1))
+    {a b : Nat × Nat} (ha : a ∈ l) (hb : b ∈ l) (hab : a.1 = b.1) : a = b := by
+  induction l with
+  | nil => cases ha
+  | cons x xs ih =>
+    rw [List.pairwise_cons] at h
+    rcases List.mem_cons.mp ha with rfl | ha' <;> rcases List.mem_cons.mp hb with rfl | hb'
+    · rfl
+    · exact absurd hab (h.1 b hb')
+    · exact absurd hab.symm (h.1 a ha')
+    · exact ih h.2 ha' hb'
+
+theorem mem_removeHandle {l : List (Nat × Nat)} {o : Option Nat} {e : Nat × Nat} :
+    e ∈ removeHandle l o ↔ e ∈ l ∧ o ≠ some e.1 := by
+  cases o with
+  | none => simp [removeHandle]
+  | some id => simp [removeHandle, List.mem_filter]; intro _; constructor <;> (intro h h'; exact h h'.symm)
+
+theorem pairwise_removeHandle {l : List (Nat × Nat)} (o : Option Nat)
+    (h : l.Pairwise (fun a b => a.1 ≠ b.1)) : (removeHandle l o).Pairwise (fun a b => a.1 ≠ b.1) := by
+  cases o with
+  | none => exact h
+  | some id => exact h.filter _
+
+/-- a state that differs only outside the hook list / monitor table -/
+theorem wfh_congr {s s' : State} (w : WFh s) (h1 : s'.post = s.post) (h2 : s'.nextId = s.nextId)
+    (h3 : s'.mons = s.mons) (h4 : s'.nMons = s.nMons) : WFh s' := by
+  obtain ⟨a, b, c, d⟩ := w
+  constructor
+  · rw [h1, h2, h3]; exact a
+  · rw [h1]; exact b
+  · rw [h1, h3]; exact c
+  · rw [h3, h4]; exact d
+
+@[simp] theorem deregisterMon_trainers (s : State) (mid : Nat) : (deregisterMon s mid).trainers = s.trainers := rfl
+@[simp] theorem deregisterMon_nMons (s : State) (mid : Nat) : (deregisterMon s mid).nMons = s.nMons := rfl
+@[simp] theorem deregisterMon_nTrainers (s : State) (mid : Nat) : (deregisterMon s mid).nTrainers = s.nTrainers := rfl
+@[simp] theorem deregisterMon_cellMons (s : State) (mid : Nat) : (deregisterMon s mid).cellMons = s.cellMons := rfl
+@[simp] theorem deregisterMon_topo (s : State) (mid : Nat) : (deregisterMon s mid).topo = s.topo := rfl
+@[simp] theorem deregisterMon_layerTraining (s : State) (mid : Nat) : (deregisterMon s mid).layerTraining = s.layerTraining := rfl
+theorem deregisterMon_mons (s : State) (mid i : Nat) :
+    (deregisterMon s mid).mons i = if i = mid then { s.mons mid with handle := none } else s.mons i := rfl
+
+theorem wfh_deregisterMon {s : State} (w : WFh s) (mid : Nat) : WFh (deregisterMon s mid) := by
+  obtain ⟨a, b, c, d⟩ := w
+  constructor
+  · intro e he
+    simp only [deregisterMon, setMon, mem_removeHandle] at he ⊢
+    obtain ⟨h1, h2, h3⟩ := a e he.1
+    have : e.2 ≠ mid := by intro hc; rw [hc] at h3; exact he.2 h3
+    simp [this, h1, h2, h3]
+  · exact pairwise_removeHandle _ b
+  · intro i hid hi
+    simp only [deregisterMon, setMon] at hi ⊢
+    by_cases him : i = mid
+    · simp [him] at hi
+    · simp only [him, if_false] at hi
+      rw [mem_removeHandle]
+      refine ⟨c i hid hi, ?_⟩
+      intro hm
+      have := pairwise_fst_inj b (c i hid hi) (c mid hid hm) rfl
+      simp at this; exact him this
+  · intro i hi
+    simp only [deregisterMon, setMon] at hi ⊢
+    by_cases him : i = mid
+    · simp [him] at hi; rw [him]; exact d mid hi
+    · simp only [him, if_false] at hi; exact d i hi
+
+theorem mem_insertPost {l : List (Nat × Nat)} {b : Bool} {e x : Nat × Nat} :
+    x ∈ insertPost l b e ↔ x ∈ l ∨ x = e := by
+  unfold insertPost; split <;> simp [or_comm]
+
+theorem pairwise_insertPost {l : List (Nat × Nat)} {b : Bool} {e : Nat × Nat}
+    (hl : l.Pairwise (fun a b => a.1 ≠ b.1)) (hid : ∀ x ∈ l, x.1 < e.1) :
+    (insertPost l b e).Pairwise (fun a b => a.1 ≠ b.1) := by
+  unfold insertPost; split
+  · rw [List.pairwise_cons]; refine ⟨?_, hl⟩
+    intro x hx; have := hid x hx; omega
+  · rw [List.pairwise_append]; refine ⟨hl, by simp, ?_⟩
+    intro x hx y hy; simp at hy; subst hy; have := hid x hx; omega
+
+theorem registerMon_of_some {s : State} {mid x : Nat} (h : (s.mons mid).handle = some x) :
+    registerMon s mid = s := by unfold registerMon; rw [h]
+
+theorem registerMon_of_none {s : State} {mid : Nat} (h : (s.mons mid).handle = none) :
+    registerMon s mid =
+      setMon { s with post := insertPost s.post (s.mons mid).prepend (s.nextId, mid), nextId := s.nextId + 1 }
+        mid { s.mons mid with handle := some s.nextId } := by unfold registerMon; rw [h]
+
+@[simp] theorem registerMon_trainers (s : State) (mid : Nat) : (registerMon s mid).trainers = s.trainers := by
+  unfold registerMon; split <;> rfl
+@[simp] theorem registerMon_nMons (s : State) (mid : Nat) : (registerMon s mid).nMons = s.nMons := by
+  unfold registerMon; split <;> rfl
+@[simp] theorem registerMon_nTrainers (s : State) (mid : Nat) : (registerMon s mid).nTrainers = s.nTrainers := by
+  unfold registerMon; split <;> rfl
+@[simp] theorem registerMon_cellMons (s : State) (mid : Nat) : (registerMon s mid).cellMons = s.cellMons := by
+  unfold registerMon; split <;> rfl
+@[simp] theorem registerMon_topo (s : State) (mid : Nat) : (registerMon s mid).topo = s.topo := by
+  unfold registerMon; split <;> rfl
+@[simp] theorem registerMon_layerTraining (s : State) (mid : Nat) : (registerMon s mid).layerTraining = s.layerTraining := by
+  unfold registerMon; split <;> rfl
+
+theorem registerMon_mons (s : State) (mid i : Nat) :
+    (registerMon s mid).mons i =
+      if i = mid ∧ (s.mons mid).handle = none then { s.mons mid with handle := some s.nextId } else s.mons i := by
+  cases h : (s.mons mid).handle with
+  | none => rw [registerMon_of_none h]; simp [setMon]
+  | some x => rw [registerMon_of_some h]; simp
+
+theorem wfh_registerMon {s : State} (w : WFh s) (mid : Nat) (hal : (s.mons mid).alive = true) :
+    WFh (registerMon s mid) := by
+  cases hh : (s.mons mid).handle with
+  | some x => rw [registerMon_of_some hh]; exact w
+  | none =>
+    rw [registerMon_of_none hh]
+    obtain ⟨a, b, c, d⟩ := w
+    constructor
+    · intro e he
+      simp only [setMon, mem_insertPost] at he ⊢
+      rcases he with h | h
+      · obtain ⟨h1, h2, h3⟩ := a e h
+        have : e.2 ≠ mid := by intro hc; rw [hc, hh] at h3; cases h3
+        simp [this, h2, h3]; omega
+      · subst h; simp [hal]
+    · exact pairwise_insertPost b (fun e he => (a e he).1)
+    · intro i hid hi
+      simp only [setMon, mem_insertPost] at hi ⊢
+      by_cases him : i = mid
+      · simp [him] at hi; subst hi; subst him; exact Or.inr rfl
+      · simp only [him, if_false] at hi
+        exact Or.inl (c i hid hi)
+    · intro i hi
+      simp only [setMon] at hi ⊢
+      by_cases him : i = mid
+      · rw [him]; exact d mid hal
+      · simp only [him, if_false] at hi; exact d i hi
+
+/-! ### New monitors -/
+
+@[simp] theorem newMonitor_snd (s : State) (t : Nat) (pp : Bool) (path : Path) (tags : Option Nat)
+    (reads : List Nat) (cell : Nat) : (newMonitor s t pp path tags reads cell).2 = s.nMons := rfl
+@[simp] theorem newMonitor_trainers (s : State) (t : Nat) (pp : Bool) (path : Path) (tags : Option Nat)
+    (reads : List Nat) (cell : Nat) : (newMonitor s t pp path tags reads cell).1.trainers = s.trainers := by
+  simp [newMonitor, setMon]
+@[simp] theorem newMonitor_nMons (s : State) (t : Nat) (pp : Bool) (path : Path) (tags : Option Nat)
+    (reads : List Nat) (cell : Nat) : (newMonitor s t pp path tags reads cell).1.nMons = s.nMons + 1 := by
+  simp [newMonitor, setMon]
+@[simp] theorem newMonitor_nTrainers (s : State) (t : Nat) (pp : Bool) (path : Path) (tags : Option Nat)
+    (reads : List Nat) (cell : Nat) : (newMonitor s t pp path tags reads cell).1.nTrainers = s.nTrainers := by
+  simp [newMonitor, setMon]
+@[simp] theorem newMonitor_cellMons (s : State) (t : Nat) (pp : Bool) (path : Path) (tags : Option Nat)
+    (reads : List Nat) (cell : Nat) : (newMonitor s t pp path tags reads cell).1.cellMons = s.cellMons := by
+  simp [newMonitor, setMon]
+@[simp] theorem newMonitor_topo (s : State) (t : Nat) (pp : Bool) (path : Path) (tags : Option Nat)
+    (reads : List Nat) (cell : Nat) : (newMonitor s t pp path tags reads cell).1.topo = s.topo := by
+  simp [newMonitor, setMon]
+@[simp] theorem newMonitor_layerTraining (s : State) (t : Nat) (pp : Bool) (path : Path) (tags : Option Nat)
+    (reads : List Nat) (cell : Nat) : (newMonitor s t pp path tags reads cell).1.layerTraining = s.layerTraining := by
+  simp [newMonitor, setMon]
+
+theorem newMonitor_mons (s : State) (t : Nat) (pp : Bool) (path : Path) (tags : Option Nat)
+    (reads : List Nat) (cell : Nat) (i : Nat) :
+    (newMonitor s t pp path tags reads cell).1.mons i =
+      if i = s.nMons then ⟨t, true, some s.nextId, pp, path, tags, reads, cell, 0, 0⟩ else s.mons i := by
+  simp only [newMonitor, registerMon_mons, setMon]
+  by_cases h : i = s.nMons <;> simp [h]
+
+theorem wfh_newMonitor {s : State} (w : WFh s) (t : Nat) (pp : Bool) (path : Path) (tags : Option Nat)
+    (reads : List Nat) (cell : Nat) : WFh (newMonitor s t pp path tags reads cell).1 := by
+  simp only [newMonitor]
+  apply wfh_registerMon
+  · obtain ⟨a, b, c, d⟩ := w
+    constructor
+    · intro e he
+      simp only [setMon] at he ⊢
+      obtain ⟨h1, h2, h3⟩ := a e he
+      have : e.2 ≠ s.nMons := by have := d e.2 h2; omega
+      simp [this, h1, h2, h3]
+    · exact b
+    · intro i hid hi
+      simp only [setMon] at hi ⊢
+      by_cases him : i = s.nMons
+      · simp [him] at hi
+      · simp only [him, if_false] at hi; exact c i hid hi
+    · intro i hi
+      simp only [setMon] at hi ⊢
+      by_cases him : i = s.nMons
+      · omega
+      · simp only [him, if_false] at hi; have := d i hi; omega
+  · simp [setMon]
+
+/-! ### Pool consistency -/
+
+/-- every monitor held by a live trainer's pool is alive, owned by that trainer, and registered
+exactly when the trainer is in training mode -/
+def PoolOK (s : State) : Prop :=
+  ∀ t, (s.trainers t).alive = true → ∀ mid ∈ poolMids (s.trainers t),
+    (s.mons mid).alive = true ∧ (s.mons mid).owner = t ∧ ((s.mons mid).handle.isSome = (s.trainers t).training)
+
+structure WFc (s : State) : Prop where
+  h : WFh s
+  pool : PoolOK s
+  trainer_lt : ∀ t, (s.trainers t).alive = true → t < s.nTrainers
+
+/-- after reference counting has run: every alive monitor is held by its (alive) owner's pool -/
+structure WF (s : State) : Prop extends WFc s where
+  alive_live : ∀ mid, (s.mons mid).alive = true → live s mid = true
+
+theorem init_wf (topo : List (Nat × Nat)) : WF (init topo) := by
+  refine ⟨⟨⟨?_, ?_, ?_, ?_⟩, ?_, ?_⟩, ?_⟩ <;> simp [init, noMonitor, noTrainer, PoolOK]
+
+theorem gc_wf {s : State} (w : WFc s) : WF (gc s) := by
+  obtain ⟨⟨a, b, c, d⟩, p, tl⟩ := w
+  have live_of_pool : ∀ t, (s.trainers t).alive = true → ∀ mid ∈ poolMids (s.trainers t), live s mid = true := by
+    intro t ht mid hm
+    obtain ⟨h1, h2, _⟩ := p t ht mid hm
+    simp [live, referenced, h1, h2, ht, hm]
+  refine ⟨⟨⟨?_, ?_, ?_, ?_⟩, ?_, ?_⟩, ?_⟩
+  · intro e he
+    simp only [gc, List.mem_filter] at he ⊢
+    simp only [he.2, if_true]
+    exact a e he.1
+  · exact b.filter _
+  · intro mid hid hm
+    simp only [gc] at hm ⊢
+    by_cases hl : live s mid = true
+    · simp only [hl, if_true] at hm
+      rw [List.mem_filter]; exact ⟨c mid hid hm, hl⟩
+    · simp [hl] at hm
+  · intro mid hm
+    simp only [gc] at hm ⊢
+    by_cases hl : live s mid = true
+    · simp only [hl, if_true] at hm; exact d mid hm
+    · simp [hl] at hm
+  · intro t ht mid hm
+    simp only [gc] at ht hm ⊢
+    have hl := live_of_pool t ht mid hm
+    simp only [hl, if_true]
+    exact p t ht mid hm
+  · exact tl
+  · intro mid hm
+    simp only [gc] at hm
+    by_cases hl : live s mid = true
+    · have e : (gc s).mons mid = s.mons mid := by simp [gc, hl]
+      have : live (gc s) mid = live s mid := by simp only [live, referenced, e]; rfl
+      rw [this]; exact hl
+    · simp [hl] at hm
+
+/-! ### Lists of groups -/
+
+def gMids (gs : List (Nat × List (Nat × Nat))) : List Nat := gs.flatMap (fun g => g.2.map (·.2))
+
+theorem poolMids_eq (T : Trainer) : poolMids T = gMids T.groups := rfl
+
+theorem mem_gMids {gs : List (Nat × List (Nat × Nat))} {mid : Nat} :
+    mid ∈ gMids gs ↔ ∃ g ∈ gs, ∃ e ∈ g.2, e.2 = mid := by
+  simp [gMids, List.mem_flatMap, List.mem_map]
+
+theorem lookup_mem {β : Type} {l : List (Nat × β)} {k : Nat} {v : β} (h : lookup l k = some v) :
+    (k, v) ∈ l := by
+  unfold lookup at h
+  cases hf : l.find? (fun e => e.1 == k) with
+  | none => simp [hf] at h
+  | some e =>
+    simp [hf] at h
+    have h1 := List.find?_some hf
+    have h2 := List.mem_of_find?_eq_some hf
+    simp at h1
+    have : e = (k, v) := by cases e; simp_all
+    rw [← this]; exact h2
+
+theorem lookup_isSome_of_mem {β : Type} {l : List (Nat × β)} {k : Nat} {v : β} (h : (k, v) ∈ l) :
+    (lookup l k).isSome = true := by
+  unfold lookup
+  rw [Option.isSome_map, List.find?_isSome]
+  exact ⟨(k, v), h, by simp⟩
+
+theorem mem_gMids_of_lookup {gs : List (Nat × List (Nat × Nat))} {n m mid : Nat} {g : List (Nat × Nat)}
+    (h1 : lookup gs n = some g) (h2 : lookup g m = some mid) : mid ∈ gMids gs :=
+  mem_gMids.mpr ⟨(n, g), lookup_mem h1, (m, mid), lookup_mem h2, rfl⟩
+
+theorem gMids_filter_subset {gs : List (Nat × List (Nat × Nat))} (p : Nat × List (Nat × Nat) → Bool) {mid : Nat}
+    (h : mid ∈ gMids (gs.filter p)) : mid ∈ gMids gs := by
+  rw [mem_gMids] at h ⊢
+  obtain ⟨g, hg, e, he, rfl⟩ := h
+  exact ⟨g, (List.mem_filter.mp hg).1, e, he, rfl⟩
+
+theorem gMids_groupsErase_subset {gs : List (Nat × List (Nat × Nat))} {n m mid : Nat}
+    (h : mid ∈ gMids (groupsErase gs n m)) : mid ∈ gMids gs := by
+  rw [mem_gMids] at h ⊢
+  obtain ⟨g, hg, e, he, rfl⟩ := h
+  simp only [groupsErase, List.mem_map] at hg
+  obtain ⟨g0, hg0, rfl⟩ := hg
+  by_cases hn : (g0.1 == n) = true
+  · simp only [hn, if_true] at he
+    exact ⟨g0, hg0, e, (List.mem_filter.mp he).1, rfl⟩
+  · simp only [hn] at he
+    exact ⟨g0, hg0, e, he, rfl⟩
+
+theorem gMids_groupsInsert {gs : List (Nat × List (Nat × Nat))} {n m mid x : Nat}
+    (h : x ∈ gMids (groupsInsert gs n m mid)) : x = mid ∨ x ∈ gMids gs := by
+  rw [mem_gMids] at h
+  obtain ⟨g, hg, e, he, rfl⟩ := h
+  unfold groupsInsert at hg
+  split at hg
+  · simp only [List.mem_map] at hg
+    obtain ⟨g0, hg0, rfl⟩ := hg
+    by_cases hn : (g0.1 == n) = true
+    · simp only [hn, if_true] at he
+      split at he
+      · simp only [List.mem_map] at he
+        obtain ⟨e0, he0, rfl⟩ := he
+        by_cases hm : (e0.1 == m) = true
+        · simp [hm]
+        · simp only [hm]; right; exact mem_gMids.mpr ⟨g0, hg0, e0, he0, by simp⟩
+      · rcases List.mem_append.mp he with h | h
+        · right; exact mem_gMids.mpr ⟨g0, hg0, e, h, rfl⟩
+        · simp at h; subst h; left; rfl
+    · simp only [hn] at he
+      right; exact mem_gMids.mpr ⟨g0, hg0, e, he, rfl⟩
+  · rcases List.mem_append.mp hg with h | h
+    · right; exact mem_gMids.mpr ⟨g, h, e, he, rfl⟩
+    · simp at h; subst h; simp at he; subst he; left; rfl
+
+theorem mem_gMids_groupsInsert_self (gs : List (Nat × List (Nat × Nat))) (n m mid : Nat) :
+    mid ∈ gMids (groupsInsert gs n m mid) := by
+  rw [mem_gMids]
+  unfold groupsInsert
+  split
+  · rename_i h
+    rw [List.any_eq_true] at h
+    obtain ⟨g0, hg0, hn⟩ := h
+    refine ⟨_, List.mem_map.mpr ⟨g0, hg0, rfl⟩, ?_⟩
+    simp only [hn, if_true]
+    split
+    · rename_i h2
+      rw [List.any_eq_true] at h2
+      obtain ⟨e0, he0, hm⟩ := h2
+      exact ⟨_, List.mem_map.mpr ⟨e0, he0, rfl⟩, by simp [hm]⟩
+    · exact ⟨(m, mid), by simp, rfl⟩
+  · exact ⟨(n, [(m, mid)]), by simp, (m, mid), by simp, rfl⟩
+
+/-! ### Trainer updates -/
+
+@[simp] theorem setTrainer_post (s : State) (t : Nat) (T : Trainer) : (setTrainer s t T).post = s.post := rfl
+@[simp] theorem setTrainer_mons (s : State) (t : Nat) (T : Trainer) : (setTrainer s t T).mons = s.mons := rfl
+@[simp] theorem setTrainer_nMons (s : State) (t : Nat) (T : Trainer) : (setTrainer s t T).nMons = s.nMons := rfl
+@[simp] theorem setTrainer_nextId (s : State) (t : Nat) (T : Trainer) : (setTrainer s t T).nextId = s.nextId := rfl
+@[simp] theorem setTrainer_nTrainers (s : State) (t : Nat) (T : Trainer) : (setTrainer s t T).nTrainers = s.nTrainers := rfl
+@[simp] theorem setTrainer_cellMons (s : State) (t : Nat) (T : Trainer) : (setTrainer s t T).cellMons = s.cellMons := rfl
+@[simp] theorem setTrainer_topo (s : State) (t : Nat) (T : Trainer) : (setTrainer s t T).topo = s.topo := rfl
+@[simp] theorem setTrainer_layerTraining (s : State) (t : Nat) (T : Trainer) : (setTrainer s t T).layerTraining = s.layerTraining := rfl
+theorem setTrainer_trainers (s : State) (t : Nat) (T : Trainer) (i : Nat) :
+    (setTrainer s t T).trainers i = if i = t then T else s.trainers i := rfl
+@[simp] theorem setTrainer_trainers_self (s : State) (t : Nat) (T : Trainer) : (setTrainer s t T).trainers t = T := by
+  simp [setTrainer]
+
+theorem wfc_setTrainer {s : State} (w : WFc s) (t : Nat) (T : Trainer)
+    (hlt : T.alive = true → t < s.nTrainers)
+    (hp : T.alive = true → ∀ mid ∈ poolMids T,
+      (s.mons mid).alive = true ∧ (s.mons mid).owner = t ∧ ((s.mons mid).handle.isSome = T.training)) :
+    WFc (setTrainer s t T) := by
+  refine ⟨wfh_congr w.h rfl rfl rfl rfl, ?_, ?_⟩
+  · intro t' ht' mid hm
+    rw [setTrainer_trainers] at ht' hm ⊢
+    by_cases h : t' = t
+    · simp only [h, if_true] at ht' hm ⊢; exact hp ht' mid hm
+    · simp only [h, if_false] at ht' hm ⊢; exact w.pool t' ht' mid hm
+  · intro t' ht'
+    rw [setTrainer_trainers] at ht'
+    by_cases h : t' = t
+    · simp only [h, if_true] at ht'; rw [h]; exact hlt ht'
+    · simp only [h, if_false] at ht'; exact w.trainer_lt t' ht'
+
+/-- states that agree on everything the structural invariants look at -/
+theorem wfc_skeleton {s s' : State} (w : WFc s) (h1 : s'.post = s.post) (h2 : s'.nextId = s.nextId)
+    (h4 : s'.nMons = s.nMons) (h5 : s'.trainers = s.trainers) (h6 : s'.nTrainers = s.nTrainers)
+    (hm : ∀ i, (s'.mons i).alive = (s.mons i).alive ∧ (s'.mons i).handle = (s.mons i).handle ∧
+      (s'.mons i).owner = (s.mons i).owner) : WFc s' := by
+  obtain ⟨⟨a, b, c, d⟩, p, tl⟩ := w
+  refine ⟨⟨?_, ?_, ?_, ?_⟩, ?_, ?_⟩
+  · intro e he; rw [h1] at he; rw [h2, (hm e.2).1, (hm e.2).2.1]; exact a e he
+  · rw [h1]; exact b
+  · intro i hid hi; rw [(hm i).2.1] at hi; rw [h1]; exact c i hid hi
+  · intro i hi; rw [(hm i).1] at hi; rw [h4]; exact d i hi
+  · intro t ht mid hmem; rw [h5] at ht hmem ⊢; rw [(hm mid).1, (hm mid).2.1, (hm mid).2.2]; exact p t ht mid hmem
+  · intro t ht; rw [h5] at ht; rw [h6]; exact tl t ht
+
+theorem wf_skeleton {s s' : State} (w : WF s) (h1 : s'.post = s.post) (h2 : s'.nextId = s.nextId)
+    (h4 : s'.nMons = s.nMons) (h5 : s'.trainers = s.trainers) (h6 : s'.nTrainers = s.nTrainers)
+    (hm : ∀ i, (s'.mons i).alive = (s.mons i).alive ∧ (s'.mons i).handle = (s.mons i).handle ∧
+      (s'.mons i).owner = (s.mons i).owner) : WF s' := by
+  refine ⟨wfc_skeleton w.toWFc h1 h2 h4 h5 h6 hm, ?_⟩
+  intro mid hmid
+  rw [(hm mid).1] at hmid
+  have := w.alive_live mid hmid
+  simp only [live, referenced, h5, (hm mid).1, (hm mid).2.2] at this ⊢
+  exact this
+
+/-- the common tail of `MonitorPool.add_monitor`: write `cell.monitors[name]`, deregister if the
+trainer is not training, insert into the pool -/
+theorem addMonitorTail_wfc {s2 : State} (w2 : WFc s2) (t n mname mid cell : Nat)
+    (hal : (s2.trainers t).alive = true) (hm1 : (s2.mons mid).alive = true) (hm2 : (s2.mons mid).owner = t)
+    (hm3 : mid ∈ poolMids (s2.trainers t) ∨
+      ((∀ t', (s2.trainers t').alive = true → mid ∉ poolMids (s2.trainers t')) ∧ (s2.mons mid).handle.isSome = true)) :
+    WFc (addMonitorTail s2 t n mname mid cell) := by
+  unfold addMonitorTail poolInsert
+  generalize hs3 : writeCellMon s2 cell mname mid = s3
+  have w3 : WFc s3 := by rw [← hs3]; exact wfc_skeleton w2 rfl rfl rfl rfl rfl (fun i => ⟨rfl, rfl, rfl⟩)
+  have e3t : s3.trainers = s2.trainers := by rw [← hs3]; rfl
+  have e3m : s3.mons = s2.mons := by rw [← hs3]; rfl
+  have e3n : s3.nTrainers = s2.nTrainers := by rw [← hs3]; rfl
+  generalize hs4 : deregIfEval s3 t mid = s4
+  have hs4' : (if (s2.trainers t).training = true then s3 else deregisterMon s3 mid) = s4 := by
+    rw [← hs4, deregIfEval, e3t]
+  have tr4 : s4.trainers = s2.trainers := by rw [← hs4']; split <;> simp [e3t]
+  have n4 : s4.nTrainers = s2.nTrainers := by rw [← hs4']; split <;> simp [e3n]
+  -- state s4 is consistent, and `mid` has the registration state the trainer's mode demands
+  have key : WFc s4 ∧ (s4.mons mid).alive = true ∧ (s4.mons mid).owner = t ∧
+      (s4.mons mid).handle.isSome = (s2.trainers t).training := by
+    by_cases htr : (s2.trainers t).training = true
+    · have e : s4 = s3 := by rw [← hs4']; simp [htr]
+      rw [e, e3m]
+      refine ⟨w3, hm1, hm2, ?_⟩
+      rcases hm3 with h | ⟨_, h⟩
+      · exact (w2.pool t hal mid h).2.2
+      · rw [h, htr]
+    · have e : s4 = deregisterMon s3 mid := by rw [← hs4']; simp [htr]
+      simp only [Bool.not_eq_true] at htr
+      rw [e]
+      refine ⟨⟨wfh_deregisterMon w3.h mid, ?_, w3.trainer_lt⟩, ?_, ?_, ?_⟩
+      · intro t' ht' mid' hm'
+        simp only [deregisterMon_trainers, e3t] at ht' hm' ⊢
+        rw [deregisterMon_mons, e3m]
+        by_cases hmm : mid' = mid
+        · subst hmm
+          simp only [if_true]
+          rcases hm3 with h | ⟨h, _⟩
+          · have p1 := w2.pool t' ht' mid' hm'
+            have p2 := w2.pool t hal mid' h
+            have : t' = t := by rw [← p1.2.1, ← p2.2.1]
+            subst this
+            refine ⟨p1.1, p1.2.1, ?_⟩
+            show false = (s2.trainers t').training; rw [htr]
+          · exact absurd hm' (h t' ht')
+        · simp only [hmm, if_false]; exact w2.pool t' ht' mid' hm'
+      · rw [deregisterMon_mons, e3m]; simp; exact hm1
+      · rw [deregisterMon_mons, e3m]; simp; exact hm2
+      · rw [deregisterMon_mons]; simp [htr]
+  obtain ⟨w4, k1, k2, k3⟩ := key
+  apply wfc_setTrainer w4
+  · intro _; rw [n4]; exact w2.trainer_lt t hal
+  · intro _ x hx
+    rw [poolMids_eq] at hx
+    simp only at hx
+    rcases gMids_groupsInsert hx with h | h
+    · subst h; refine ⟨k1, k2, ?_⟩; rw [k3, tr4]
+    · have hx' : x ∈ poolMids (s4.trainers t) := h
+      have hal4 : (s4.trainers t).alive = true := by rw [tr4]; exact hal
+      have := w4.pool t hal4 x hx'
+      refine ⟨this.1, this.2.1, ?_⟩
+      rw [this.2.2]
+
+theorem findAlias_go_mem (s : State) (T : Trainer) (cell mname tags : Nat) (path : Path)
+    (obs : List (Nat × Nat)) (found : Option Nat) (hf : ∀ x, found = some x → x ∈ poolMids T)
+    (mid : Nat) (h : findAlias.go s T cell mname tags path obs found = some mid) : mid ∈ poolMids T := by
+  induction obs generalizing found with
+  | nil => exact hf mid (by simpa [findAlias.go] using h)
+  | cons o rest ih =>
+    obtain ⟨oname, ocell⟩ := o
+    simp only [findAlias.go] at h
+    cases hg : lookup T.groups oname with
+    | none => simp only [hg] at h; exact ih found hf h
+    | some g =>
+      simp only [hg] at h
+      cases hm : lookup g mname with
+      | none => simp only [hm] at h; exact ih found hf h
+      | some m0 =>
+        simp only [hm] at h
+        have hm0 : m0 ∈ poolMids T := mem_gMids_of_lookup hg hm
+        split at h
+        · split at h
+          · cases h; exact hm0
+          · exact ih (some m0) (by intro x hx; cases hx; exact hm0) h
+        · exact ih found hf h
+
+theorem findAlias_mem {s : State} {T : Trainer} {cell mname tags : Nat} {path : Path} {mid : Nat}
+    (h : findAlias s T cell mname tags path = some mid) : mid ∈ poolMids T :=
+  findAlias_go_mem s T cell mname tags path T.cells none (by simp) mid h
+
+
+theorem eraseExisting_spec {s : State} (w : WFc s) (t n mname : Nat) (hal : (s.trainers t).alive = true) :
+    WFc (eraseExisting s t n mname) ∧ ((eraseExisting s t n mname).trainers t).alive = true ∧
+    ((eraseExisting s t n mname).trainers t).training = (s.trainers t).training ∧
+    ((eraseExisting s t n mname).trainers t).cells = (s.trainers t).cells ∧
+    (eraseExisting s t n mname).mons = s.mons := by
+  unfold eraseExisting
+  simp only
+  split
+  · refine ⟨?_, by simp [hal], by simp, by simp, rfl⟩
+    apply wfc_setTrainer w t _ (fun _ => w.trainer_lt t hal)
+    intro _ x hx
+    exact w.pool t hal x (gMids_groupsErase_subset hx)
+  · exact ⟨w, hal, rfl, rfl, rfl⟩
+
+theorem obtainMonitor_spec {s : State} (w : WFc s) (t cell mname : Nat) (unique prepend : Bool) (tags : Nat)
+    (path : Path) (reads : List Nat) (hal : (s.trainers t).alive = true) :
+    let r := obtainMonitor s t cell mname unique prepend tags path reads
+    WFc r.1 ∧ r.1.trainers = s.trainers ∧ (r.1.mons r.2).alive = true ∧ (r.1.mons r.2).owner = t ∧
+    (r.2 ∈ poolMids (r.1.trainers t) ∨
+      ((∀ t', (r.1.trainers t').alive = true → r.2 ∉ poolMids (r.1.trainers t')) ∧
+        (r.1.mons r.2).handle.isSome = true)) := by
+  have fresh : ∀ (tg : Option Nat),
+      let r := newMonitor s t prepend path tg reads cell
+      WFc r.1 ∧ r.1.trainers = s.trainers ∧ (r.1.mons r.2).alive = true ∧ (r.1.mons r.2).owner = t ∧
+      (r.2 ∈ poolMids (r.1.trainers t) ∨
+        ((∀ t', (r.1.trainers t').alive = true → r.2 ∉ poolMids (r.1.trainers t')) ∧
+          (r.1.mons r.2).handle.isSome = true)) := by
+    intro tg r
+    have hlt : ∀ t', (s.trainers t').alive = true → ∀ x ∈ poolMids (s.trainers t'), x < s.nMons := by
+      intro t' ht' x hx
+      exact w.h.alive_lt x (w.pool t' ht' x hx).1
+    refine ⟨⟨wfh_newMonitor w.h _ _ _ _ _ _, ?_, ?_⟩, by simp [r], ?_, ?_, Or.inr ⟨?_, ?_⟩⟩
+    · intro t' ht' x hx
+      simp only [r, newMonitor_trainers] at ht' hx ⊢
+      have := hlt t' ht' x hx
+      rw [newMonitor_mons]
+      have hne : x ≠ s.nMons := by omega
+      simp only [hne, if_false]
+      exact w.pool t' ht' x hx
+    · intro t' ht'
+      simp only [r, newMonitor_trainers, newMonitor_nTrainers] at ht' ⊢
+      exact w.trainer_lt t' ht'
+    · simp only [r, newMonitor_snd, newMonitor_mons]; simp
+    · simp only [r, newMonitor_snd, newMonitor_mons]; simp
+    · intro t' ht' hx
+      simp only [r, newMonitor_trainers, newMonitor_snd] at ht' hx
+      have := hlt t' ht' _ hx
+      omega
+    · simp only [r, newMonitor_snd, newMonitor_mons]; simp
+  intro r
+  simp only [r, obtainMonitor]
+  cases unique with
+  | true => simp only [if_true]; exact fresh none
+  | false =>
+    simp only [Bool.false_eq_true, if_false]
+    cases hfa : findAlias s (s.trainers t) cell mname tags path with
+    | none => simp only; exact fresh (some tags)
+    | some mid =>
+      simp only
+      have hmem : mid ∈ poolMids (s.trainers t) := findAlias_mem hfa
+      have pm := w.pool t hal mid hmem
+      exact ⟨w, trivial, pm.1, pm.2.1, Or.inl hmem⟩
+
+theorem addMonitor_wfc {s : State} (w : WFc s) (t n mname : Nat) (sel : AttrSel) (unique prepend : Bool)
+    (tags : Nat) (reads : List Nat) (hal : (s.trainers t).alive = true) :
+    WFc (addMonitor s t n mname sel unique prepend tags reads).1 ∧
+    ((addMonitor s t n mname sel unique prepend tags reads).1.trainers t).alive = true := by
+  unfold addMonitor
+  cases hc : lookup (s.trainers t).cells n with
+  | none => exact ⟨w, hal⟩
+  | some cell =>
+    simp only
+    split
+    · exact ⟨w, hal⟩
+    · obtain ⟨w1, a1, _, _, _⟩ := eraseExisting_spec w t n mname hal
+      cases hr : realign (eraseExisting s t n mname) cell sel with
+      | error e => exact ⟨w1, a1⟩
+      | ok path =>
+        simp only
+        obtain ⟨w2, t2, m1, m2, m3⟩ := obtainMonitor_spec w1 t cell mname unique prepend tags path reads a1
+        have a2 : ((obtainMonitor (eraseExisting s t n mname) t cell mname unique prepend tags path reads).1.trainers t).alive = true := by
+          rw [t2]; exact a1
+        refine ⟨addMonitorTail_wfc w2 t n mname _ cell a2 m1 m2 m3, ?_⟩
+        unfold addMonitorTail poolInsert deregIfEval writeCellMon
+        simp only [setTrainer_trainers_self]
+        split
+        · exact a2
+        · simpa using a2
+
+/-! ### Folds of (de)registrations -/
+
+/-- monitors of `s'` equal those of `s` except for their handles -/
+def SameButHandle (m m' : Monitor) : Prop := m' = { m with handle := m'.handle }
+
+theorem SameButHandle.fields {m m' : Monitor} (h : SameButHandle m m') :
+    m'.alive = m.alive ∧ m'.owner = m.owner ∧ m'.count = m.count ∧ m'.expected = m.expected ∧
+    m'.path = m.path ∧ m'.reads = m.reads ∧ m'.cell = m.cell ∧ m'.tags = m.tags ∧ m'.prepend = m.prepend := by
+  unfold SameButHandle at h; rw [h]; simp
+
+theorem SameButHandle.refl (m : Monitor) : SameButHandle m m := by cases m; rfl
+
+theorem SameButHandle.trans {a b c : Monitor} (h1 : SameButHandle a b) (h2 : SameButHandle b c) :
+    SameButHandle a c := by
+  unfold SameButHandle at *; rw [h2, h1]
+
+theorem deregisterUnshared_cons (s : State) (shared : List Nat) (e : Nat × Nat) (rest : List (Nat × Nat)) :
+    deregisterUnshared s shared (e :: rest) =
+      deregisterUnshared (if shared.contains e.2 then s else deregisterMon s e.2) shared rest := rfl
+
+theorem setAll_cons (s : State) (mode : Bool) (x : Nat) (rest : List Nat) :
+    setAll s mode (x :: rest) = setAll (if mode then registerMon s x else deregisterMon s x) mode rest := rfl
+
+theorem deregisterUnshared_spec (shared : List Nat) (g : List (Nat × Nat)) (s : State) (w : WFh s) :
+    WFh (deregisterUnshared s shared g) ∧ (deregisterUnshared s shared g).trainers = s.trainers ∧
+    (deregisterUnshared s shared g).nTrainers = s.nTrainers ∧
+    (deregisterUnshared s shared g).cellMons = s.cellMons ∧
+    (∀ i, SameButHandle (s.mons i) ((deregisterUnshared s shared g).mons i)) ∧
+    (∀ i, (∀ e ∈ g, e.2 = i → shared.contains i = true) → (deregisterUnshared s shared g).mons i = s.mons i) := by
+  induction g generalizing s with
+  | nil => exact ⟨w, rfl, rfl, rfl, fun i => SameButHandle.refl _, fun i _ => rfl⟩
+  | cons e rest ih =>
+    rw [deregisterUnshared_cons]
+    by_cases hs : shared.contains e.2 = true
+    · simp only [hs, if_true]
+      obtain ⟨a, b, c, c', d, f⟩ := ih s w
+      refine ⟨a, b, c, c', d, ?_⟩
+      intro i hi
+      exact f i (fun e' he' => hi e' (List.mem_cons_of_mem _ he'))
+    · simp only [hs, Bool.false_eq_true, if_false]
+      obtain ⟨a, b, c, c', d, f⟩ := ih (deregisterMon s e.2) (wfh_deregisterMon w e.2)
+      refine ⟨a, by rw [b]; rfl, by rw [c]; rfl, by rw [c']; rfl, ?_, ?_⟩
+      · intro i
+        refine SameButHandle.trans ?_ (d i)
+        rw [deregisterMon_mons]; split
+        · rename_i h; subst h; unfold SameButHandle; rfl
+        · exact SameButHandle.refl _
+      · intro i hi
+        rw [f i (fun e' he' => hi e' (List.mem_cons_of_mem _ he')), deregisterMon_mons]
+        have : i ≠ e.2 := by
+          intro hc; have := hi e List.mem_cons_self hc.symm; rw [hc] at this; exact hs this
+        simp [this]
+
+theorem setAll_spec (mode : Bool) (l : List Nat) (s : State) (w : WFh s) (hal : ∀ i ∈ l, (s.mons i).alive = true) :
+    WFh (setAll s mode l) ∧ (setAll s mode l).trainers = s.trainers ∧
+    (setAll s mode l).nTrainers = s.nTrainers ∧ (setAll s mode l).cellMons = s.cellMons ∧
+    (∀ i, SameButHandle (s.mons i) ((setAll s mode l).mons i)) ∧
+    (∀ i, i ∉ l → (setAll s mode l).mons i = s.mons i) ∧
+    (∀ i ∈ l, ((setAll s mode l).mons i).handle.isSome = mode) := by
+  induction l generalizing s with
+  | nil => exact ⟨w, rfl, rfl, rfl, fun i => SameButHandle.refl _, fun i _ => rfl, fun i hi => by cases hi⟩
+  | cons x rest ih =>
+    rw [setAll_cons]
+    generalize hs1 : (if mode = true then registerMon s x else deregisterMon s x) = s1
+    have hx : (s.mons x).alive = true := hal x List.mem_cons_self
+    have w1 : WFh s1 := by
+      rw [← hs1]; split
+      · exact wfh_registerMon w x hx
+      · exact wfh_deregisterMon w x
+    have t1 : s1.trainers = s.trainers := by rw [← hs1]; split <;> simp
+    have n1 : s1.nTrainers = s.nTrainers := by rw [← hs1]; split <;> simp
+    have c1 : s1.cellMons = s.cellMons := by rw [← hs1]; split <;> simp
+    have m1 : ∀ i, SameButHandle (s.mons i) (s1.mons i) := by
+      intro i; rw [← hs1]; split
+      · rw [registerMon_mons]; split
+        · rename_i h; rw [h.1]; unfold SameButHandle; rfl
+        · exact SameButHandle.refl _
+      · rw [deregisterMon_mons]; split
+        · rename_i h; rw [h]; unfold SameButHandle; rfl
+        · exact SameButHandle.refl _
+    have m1' : ∀ i, i ≠ x → s1.mons i = s.mons i := by
+      intro i hi; rw [← hs1]; split
+      · rw [registerMon_mons]; simp [hi]
+      · rw [deregisterMon_mons]; simp [hi]
+    have m1x : (s1.mons x).handle.isSome = mode := by
+      rw [← hs1]; split
+      · rename_i hm; rw [registerMon_mons]
+        cases hh : (s.mons x).handle with
+        | none => simp [hm]
+        | some v => simp [hh, hm]
+      · rename_i hm; rw [deregisterMon_mons]; simp at hm; simp [hm]
+    have hal1 : ∀ i ∈ rest, (s1.mons i).alive = true := by
+      intro i hi; rw [(m1 i).fields.1]; exact hal i (List.mem_cons_of_mem _ hi)
+    obtain ⟨a, b, c, c', d, e, f⟩ := ih s1 w1 hal1
+    refine ⟨a, by rw [b, t1], by rw [c, n1], by rw [c', c1], fun i => SameButHandle.trans (m1 i) (d i), ?_, ?_⟩
+    · intro i hi
+      have h1 : i ≠ x := fun hc => hi (hc ▸ List.mem_cons_self)
+      have h2 : i ∉ rest := fun hc => hi (List.mem_cons_of_mem _ hc)
+      rw [e i h2, m1' i h1]
+    · intro i hi
+      by_cases hr : i ∈ rest
+      · exact f i hr
+      · have : i = x := by rcases List.mem_cons.mp hi with h | h; exact h; exact absurd h hr
+        rw [e i hr, this]; exact m1x
+
+/-! ### Every operation preserves the structural invariant -/
+
+theorem wfc_replaceTrainer {s : State} (wh : WFh s) (t : Nat) (T : Trainer)
+    (hothers : ∀ t', t' ≠ t → (s.trainers t').alive = true → t' < s.nTrainers ∧ ∀ mid ∈ poolMids (s.trainers t'),
+      (s.mons mid).alive = true ∧ (s.mons mid).owner = t' ∧ ((s.mons mid).handle.isSome = (s.trainers t').training))
+    (hlt : T.alive = true → t < s.nTrainers)
+    (hp : T.alive = true → ∀ mid ∈ poolMids T,
+      (s.mons mid).alive = true ∧ (s.mons mid).owner = t ∧ ((s.mons mid).handle.isSome = T.training)) :
+    WFc (setTrainer s t T) := by
+  refine ⟨wfh_congr wh rfl rfl rfl rfl, ?_, ?_⟩
+  · intro t' ht' mid hm
+    rw [setTrainer_trainers] at ht' hm ⊢
+    by_cases h : t' = t
+    · simp only [h, if_true] at ht' hm ⊢; exact hp ht' mid hm
+    · simp only [h, if_false] at ht' hm ⊢; exact (hothers t' h ht').2 mid hm
+  · intro t' ht'
+    rw [setTrainer_trainers] at ht'
+    by_cases h : t' = t
+    · simp only [h, if_true] at ht'; rw [h]; exact hlt ht'
+    · simp only [h, if_false] at ht'; exact (hothers t' h ht').1
+
+theorem mem_pool_of_lookup {T : Trainer} {n m mid : Nat} {g : List (Nat × Nat)}
+    (h1 : lookup T.groups n = some g) (h2 : (m, mid) ∈ g) : mid ∈ poolMids T :=
+  mem_gMids.mpr ⟨(n, g), lookup_mem h1, (m, mid), h2, rfl⟩
+
+theorem delObserved_wfc {s : State} (w : WFc s) (t n : Nat) (hal : (s.trainers t).alive = true) :
+    WFc (delObserved s t n) ∧ ((delObserved s t n).trainers t).alive = true ∧
+    ((delObserved s t n).trainers t).training = (s.trainers t).training ∧
+    ((delObserved s t n).trainers t).cells = (s.trainers t).cells ∧
+    ((delObserved s t n).trainers t).kind = (s.trainers t).kind := by
+  unfold delObserved
+  cases hg : lookup (s.trainers t).groups n with
+  | none => exact ⟨w, hal, rfl, rfl, rfl⟩
+  | some g =>
+    simp only
+    obtain ⟨a, b, c, _, d, f⟩ := deregisterUnshared_spec (otherMids (s.trainers t) n) g s w.h
+    generalize hs' : deregisterUnshared s (otherMids (s.trainers t) n) g = s' at a b c d f
+    unfold dropGroup
+    refine ⟨?_, by simp [b, hal], by simp [b], by simp [b], by simp [b]⟩
+    apply wfc_replaceTrainer a
+    · intro t' hne ht'
+      rw [b] at ht' ⊢
+      refine ⟨by rw [c]; exact w.trainer_lt t' ht', ?_⟩
+      intro x hx
+      have px := w.pool t' ht' x hx
+      have : s'.mons x = s.mons x := by
+        apply f; intro e he hex
+        -- `x` would be owned by `t`
+        have : x ∈ poolMids (s.trainers t) := by
+          obtain ⟨e1, e2⟩ := e; simp only at hex; subst hex; exact mem_pool_of_lookup hg he
+        have := (w.pool t hal x this).2.1
+        rw [px.2.1] at this; exact absurd this hne
+      rw [this]; exact px
+    · intro _; rw [c]; exact w.trainer_lt t hal
+    · intro _ x hx
+      rw [b] at hx ⊢
+      have hx0 : x ∈ poolMids (s.trainers t) := gMids_filter_subset _ hx
+      have px := w.pool t hal x hx0
+      have : s'.mons x = s.mons x := by
+        apply f; intro e he hex
+        simp only [List.contains_iff_mem]
+        exact hx
+      rw [this]; exact px
+
+theorem delEntry_wfc {s : State} (w : WFc s) (t n mname mid : Nat) (hal : (s.trainers t).alive = true)
+    (hmid : mid ∈ poolMids (s.trainers t)) : WFc (delEntry s t n mname mid) := by
+  unfold delEntry
+  have w1 : WFc (eraseEntry s t n mname) := by
+    unfold eraseEntry
+    apply wfc_setTrainer w t _ (fun _ => w.trainer_lt t hal)
+    intro _ x hx
+    exact w.pool t hal x (gMids_groupsErase_subset hx)
+  have a1 : ((eraseEntry s t n mname).trainers t).alive = true := by simp [eraseEntry, hal]
+  have t1 : ∀ t', t' ≠ t → (eraseEntry s t n mname).trainers t' = s.trainers t' := by
+    intro t' h; simp [eraseEntry, setTrainer, h]
+  have m1 : (eraseEntry s t n mname).mons = s.mons := rfl
+  generalize hs1 : eraseEntry s t n mname = s1 at w1 a1 t1 m1
+  have pm := w.pool t hal mid hmid
+  have w2 : WFc (deregIfUnaliased s1 t mid) ∧ ((deregIfUnaliased s1 t mid).trainers = s1.trainers) := by
+    unfold deregIfUnaliased
+    split
+    · exact ⟨w1, rfl⟩
+    · rename_i hnot
+      refine ⟨⟨wfh_deregisterMon w1.h mid, ?_, w1.trainer_lt⟩, rfl⟩
+      intro t' ht' x hx
+      simp only [deregisterMon_trainers] at ht' hx ⊢
+      have px := w1.pool t' ht' x hx
+      have hne : x ≠ mid := by
+        intro hc; subst hc
+        by_cases htt : t' = t
+        · subst htt; exact hnot (by simpa using hx)
+        · have := px.2.1; rw [m1, pm.2.1] at this; exact htt this.symm
+      rw [deregisterMon_mons]; simp only [hne, if_false]; exact px
+  obtain ⟨w2, t2⟩ := w2
+  unfold dropEmptyGroup
+  apply wfc_setTrainer w2 t _ (fun _ => w2.trainer_lt t (by rw [t2]; exact a1))
+  intro _ x hx
+  have hx' : x ∈ poolMids ((deregIfUnaliased s1 t mid).trainers t) := gMids_filter_subset _ hx
+  exact w2.pool t (by rw [t2]; exact a1) x hx'
+
+theorem trainerTrain_wfc {s : State} (w : WFc s) (t : Nat) (mode : Bool) (hal : (s.trainers t).alive = true) :
+    WFc (setAll (setTrainer s t { s.trainers t with training := mode }) mode (distinctMids (s.trainers t))) := by
+  have wh1 : WFh (setTrainer s t { s.trainers t with training := mode }) := wfh_congr w.h rfl rfl rfl rfl
+  have hmem : ∀ x, x ∈ distinctMids (s.trainers t) ↔ x ∈ poolMids (s.trainers t) := by
+    intro x; unfold distinctMids; exact List.mem_eraseDups
+  obtain ⟨a, b, c, _, d, e, f⟩ := setAll_spec mode (distinctMids (s.trainers t)) _ wh1
+    (by intro i hi; exact (w.pool t hal i ((hmem i).mp hi)).1)
+  refine ⟨a, ?_, ?_⟩
+  · intro t' ht' x hx
+    rw [b, setTrainer_trainers] at ht' hx ⊢
+    by_cases htt : t' = t
+    · subst htt
+      simp only [if_true] at ht' hx ⊢
+      have hx0 : x ∈ poolMids (s.trainers t') := hx
+      have px := w.pool t' hal x hx0
+      have sb := (d x).fields
+      simp only [setTrainer_mons] at sb
+      exact ⟨by rw [sb.1]; exact px.1, by rw [sb.2.1]; exact px.2.1, f x ((hmem x).mpr hx0)⟩
+    · simp only [htt, if_false] at ht' hx ⊢
+      have px := w.pool t' ht' x hx
+      have : x ∉ distinctMids (s.trainers t) := by
+        intro hc
+        have := (w.pool t hal x ((hmem x).mp hc)).2.1
+        rw [px.2.1] at this; exact htt this
+      rw [e x this]; exact px
+  · intro t' ht'
+    rw [b, setTrainer_trainers] at ht'
+    rw [c]
+    by_cases htt : t' = t
+    · rw [htt]; exact w.trainer_lt t hal
+    · simp only [htt, if_false] at ht'; exact w.trainer_lt t' ht'
+
+theorem addTemplate_wfc (tpl : List (Nat × AttrSel × Bool × Bool × Nat × List Nat)) (t n : Nat) (s : State)
+    (w : WFc s) (hal : (s.trainers t).alive = true) : WFc (addTemplate s t n tpl) := by
+  induction tpl generalizing s with
+  | nil => exact w
+  | cons e rest ih =>
+    obtain ⟨w', a'⟩ := addMonitor_wfc w t n e.1 e.2.1 e.2.2.1 e.2.2.2.1 e.2.2.2.2.1 e.2.2.2.2.2 hal
+    exact ih _ w' a'
+
+theorem stepCore_wfc {s : State} (w : WF s) (op : Op) : WFc (stepCore s op).1 := by
+  have wc := w.toWFc
+  cases op with
+  | newTrainer kind =>
+    simp only [stepCore]
+    have w' : WFc { s with nTrainers := s.nTrainers + 1 } :=
+      ⟨wfh_congr wc.h rfl rfl rfl rfl, wc.pool, fun t ht => Nat.lt_succ_of_lt (wc.trainer_lt t ht)⟩
+    apply wfc_setTrainer w' _ _ (fun _ => Nat.lt_succ_self _)
+    intro _ x hx; simp [poolMids] at hx
+  | registerCell t n c v =>
+    simp only [stepCore]
+    split
+    · exact wc
+    · rename_i hal; simp only [Bool.not_eq_true, Bool.not_eq_false'] at hal
+      have hal : (s.trainers t).alive = true := by simpa using hal
+      split
+      · exact wc
+      · split
+        · exact wc
+        · obtain ⟨w0, a0, _, _, _⟩ := delObserved_wfc wc t n hal
+          apply addTemplate_wfc
+          · unfold addCellEntry
+            apply wfc_setTrainer w0 t _ (fun _ => w0.trainer_lt t a0)
+            intro _ x hx; exact w0.pool t a0 x hx
+          · simp [addCellEntry, a0]
+  | delCell t n =>
+    simp only [stepCore]
+    split
+    · exact wc
+    · rename_i hal
+      have hal : (s.trainers t).alive = true := by simpa using hal
+      split
+      · exact wc
+      · obtain ⟨w0, a0, _, _, _⟩ := delObserved_wfc wc t n hal
+        unfold dropCell
+        apply wfc_setTrainer w0 t _ (fun _ => w0.trainer_lt t a0)
+        intro _ x hx; exact w0.pool t a0 x hx
+  | addMonitor t n mname sel unique prepend tags =>
+    simp only [stepCore]
+    split
+    · exact wc
+    · rename_i hal
+      have hal : (s.trainers t).alive = true := by simpa using hal
+      exact (addMonitor_wfc wc t n mname sel unique prepend tags [] hal).1
+  | delMonitor t n mname =>
+    simp only [stepCore]
+    split
+    · exact wc
+    · rename_i hal
+      have hal : (s.trainers t).alive = true := by simpa using hal
+      cases hg : lookup (s.trainers t).groups n with
+      | none => exact wc
+      | some g =>
+        simp only
+        split
+        · exact wc
+        · cases hm : lookup g mname with
+          | none => exact wc
+          | some mid => exact delEntry_wfc wc t n mname mid hal (mem_gMids_of_lookup hg hm)
+  | trainerTrain t mode =>
+    simp only [stepCore]
+    split
+    · exact wc
+    · rename_i hal
+      have hal : (s.trainers t).alive = true := by simpa using hal
+      exact trainerTrain_wfc wc t mode hal
+  | layerTrain mode =>
+    exact wfc_skeleton wc rfl rfl rfl rfl rfl (fun i => ⟨rfl, rfl, rfl⟩)
+  | layerStep =>
+    simp only [stepCore]
+    split
+    · apply wfc_skeleton (s' := ghostStep s) wc rfl rfl rfl rfl rfl
+      intro i; simp only [ghostStep]; split <;> exact ⟨rfl, rfl, rfl⟩
+    · apply wfc_skeleton (s' := countStep (ghostStep s) (ranHooks s)) wc rfl rfl rfl rfl rfl
+      intro i; simp only [countStep, ghostStep]; split <;> split <;> exact ⟨rfl, rfl, rfl⟩
+  | trainerStep t =>
+    simp only [stepCore]
+    split
+    · exact wc
+    · split <;> exact wc
+  | clear t =>
+    simp only [stepCore]
+    split
+    · exact wc
+    · apply wfc_skeleton (s' := clearMons s t) wc rfl rfl rfl rfl rfl
+      intro i; simp only [clearMons]; split <;> exact ⟨rfl, rfl, rfl⟩
+  | collect t =>
+    simp only [stepCore]
+    split
+    · exact wc
+    · apply wfc_setTrainer wc t _ (by simp) (by simp)
+
+theorem step_wf {s : State} (w : WF s) (op : Op) : WF (step s op).1 := gc_wf (stepCore_wfc w op)
+
+theorem exec_wf (topo : List (Nat × Nat)) (ops : List Op) : WF (exec (init topo) ops) := by
+  have : ∀ (s : State), WF s → WF (exec s ops) := by
+    induction ops with
+    | nil => intro s w; exact w
+    | cons op ops ih => intro s w; exact ih _ (step_wf w op)
+  exact this _ (init_wf topo)
+
 end InfernoVerif.Lifecycle
